@@ -235,7 +235,7 @@ pub fn check(case: &Case) -> Verdict {
             // iteration order carrying it where two units share a symbol)
             let m = &c.models[*ty];
             let want_unit = m.order.iter().copied().find(|&i| m.row.units[i].symbol == sym);
-            if (t.unit_from_symbol)(sym) != want_unit {
+            if (t.unit_from_symbol)(sym) != want_unit || (t.from_symbol)(sym) != want_unit {
                 fail!("{}: symbol {:?} does not resolve to the stored unit", note, sym);
             }
             let neg = amt::sign_negative(a);
